@@ -116,6 +116,8 @@ func (m *Machine) harnessAPI(fn *ssa.Function, a []Value) (Value, bool) {
 		return nil, true
 	case "vfEmitted":
 		return m.vfEmitted(fn, a[0]), true
+	case "vfTypeErrors":
+		return m.vfTypeErrors(a[0], a[1]), true
 	case "vfRuntimeHas":
 		return m.runtimeHas(m.constName(a[0]), a[1]), true
 	case "vfAny":
@@ -303,6 +305,8 @@ func (m *Machine) concreteAPI(fn *ssa.Function, a []Value) (Value, bool) {
 		return false, true
 	case "vfEmitted":
 		return m.vfEmitted(fn, a[0]), true
+	case "vfTypeErrors":
+		return m.vfTypeErrors(a[0], a[1]), true
 	}
 	return nil, false
 }
